@@ -39,8 +39,14 @@ def project(edges, block_mode):
 def cover_walks(init, g, select, max_walk=150):
     """Greedy transition cover.  select(node, (op,n)) says whether an edge must be covered.
     Returns a list of walks; each walk is a list of (op, n) starting from the initial node."""
-    todo = {(s, e) for s in g for e in g[s] if select(s, e)}
-    # shortest paths between nodes (BFS on demand)
+    todo = collections.defaultdict(set)
+    for s in g:
+        for e in g[s]:
+            if select(s, e):
+                todo[s].add(e)
+    todo = {s: v for s, v in todo.items() if v}
+    cache = {}
+
     def bfs(src):
         prev = {src: None}
         dq = collections.deque([src])
@@ -51,50 +57,47 @@ def cover_walks(init, g, select, max_walk=150):
                     prev[v] = (u, e)
                     dq.append(v)
         return prev
-    cache = {}
 
-    def path(src, dst):
+    def nearest(src):
+        """(target node, path) of the nearest node that still has uncovered edges"""
         if src not in cache:
             cache[src] = bfs(src)
         prev = cache[src]
-        if dst not in prev:
-            return None
-        out = []
-        cur = dst
-        while prev[cur] is not None:
-            u, e = prev[cur]
-            out.append(e)
-            cur = u
-        return list(reversed(out))
+        for node in prev:                 # insertion order = BFS order
+            if node in todo:
+                out, cur = [], node
+                while prev[cur] is not None:
+                    u, e = prev[cur]
+                    out.append(e)
+                    cur = u
+                return node, list(reversed(out))
+        return None, None
 
     walks = []
     while todo:
-        cur, walk = init, []
-        while len(walk) < max_walk:
-            own = sorted(e for (s, e) in todo if s == cur)
-            if own:
-                e = own[0]
-                todo.discard((cur, e))
+        cur, walk, progressed = init, [], False
+        while len(walk) < max_walk or not progressed:      # a walk always covers at least one new edge
+            if cur in todo:
+                progressed = True
+                e = min(todo[cur])
+                todo[cur].discard(e)
+                if not todo[cur]:
+                    del todo[cur]
                 walk.append(e)
                 cur = g[cur][e]
                 continue
-            # nearest node with uncovered edges
-            if cur not in cache:
-                cache[cur] = bfs(cur)
-            reach = cache[cur]
-            targets = {s for (s, e) in todo if s in reach}
-            if not targets:
+            tgt, p = nearest(cur)
+            if tgt is None:
                 break
-            # BFS order = insertion order of `reach`
-            tgt = next(s for s in reach if s in targets)
-            p = path(cur, tgt)
-            walk.extend(p)
             for e in p:
-                todo.discard((cur, e))
+                if cur in todo and e in todo[cur]:
+                    todo[cur].discard(e)
+                    if not todo[cur]:
+                        del todo[cur]
+                walk.append(e)
                 cur = g[cur][e]
         if not walk:
-            # remaining edges unreachable from init: cannot happen for a graph TLC explored from Init
-            raise ToolError("uncoverable edges: %r" % sorted(todo)[:5])
+            raise ToolError("uncoverable edges: %r" % sorted(todo.items())[:3])
         walks.append(walk)
     return walks
 
